@@ -194,7 +194,7 @@ def purity(ck):
         base = ["ADD " + gen.order(rng.choice("SIR"), oid="u1", price=100, side="S", ts=10, tif="GTC", vis=a, hid=0, thr=0, amt=None),
                 "ADD " + gen.order("S", oid="l2", price=100, side="B", ts=11, tif="GTC", vis=b)]
         rd = "READ " + rng.choice(["pkg", "snap", "json"])
-        tail = ["UPD UQ:u1:%d" % (a - d), "UPD UQ:l2:%d" % (b + d), "REBUILD " + rng.choice(["pkg", "pjson", "snap", "ref"]), "MATCH 2 u7000"]
+        tail = ["UPD UQ:u1:%d" % (a - d), "UPD UQ:l2:%d" % (b + d), "REBUILD " + rng.choice(["pkg", "pjson", "snap", "ref"]), "MATCH 1099511627776 u7000"]      # the sweep shows every quantity
         with_reads.append(("a%d" % (n + i), 100, base + [rd] + tail[:2] + [rd] + tail[2:]))
         without.append(("b%d" % (n + i), 100, base + tail))
     # blind mode: the harness itself performs no read-only call between the operations
